@@ -202,6 +202,76 @@ pub struct CaseOut {
     pub aborted_foreign: bool,
 }
 
+/// Run one case in a forked child: the child starts from the pristine process image (no
+/// cache of any decorated function has been touched, nothing is registered), so cases cannot
+/// leak state into each other and a replay in a fresh process sees exactly the same world.
+/// A child that does not answer within the watchdog time is killed and reported as exit 2.
+pub fn run_forked(f: impl FnOnce() -> CaseOut) -> CaseOut {
+    unsafe {
+        let mut fds = [0i32; 2];
+        if libc::pipe(fds.as_mut_ptr()) != 0 {
+            eprintln!("INCONCLUSIVE: pipe failed");
+            std::process::exit(2);
+        }
+        let pid = libc::fork();
+        if pid < 0 {
+            eprintln!("INCONCLUSIVE: fork failed");
+            std::process::exit(2);
+        }
+        if pid == 0 {
+            libc::close(fds[0]);
+            let out = f();
+            let text = serde_json::to_string(&caseout_to_json(&out)).unwrap_or_default();
+            let bytes = text.as_bytes();
+            let mut off = 0;
+            while off < bytes.len() {
+                let n = libc::write(fds[1], bytes[off..].as_ptr() as *const libc::c_void, bytes.len() - off);
+                if n <= 0 {
+                    break;
+                }
+                off += n as usize;
+            }
+            libc::close(fds[1]);
+            libc::_exit(0);
+        }
+        libc::close(fds[1]);
+        let mut buf: Vec<u8> = Vec::new();
+        let mut chunk = [0u8; 4096];
+        let mut waited_ms = 0i32;
+        let watchdog_ms = 60_000;
+        loop {
+            let mut pfd = libc::pollfd { fd: fds[0], events: libc::POLLIN, revents: 0 };
+            let r = libc::poll(&mut pfd, 1, 1000);
+            if r == 0 {
+                waited_ms += 1000;
+                if waited_ms >= watchdog_ms {
+                    libc::kill(pid, libc::SIGKILL);
+                    let mut st = 0;
+                    libc::waitpid(pid, &mut st, 0);
+                    eprintln!("INCONCLUSIVE: case did not finish within {} s (hang); killed", watchdog_ms / 1000);
+                    std::process::exit(2);
+                }
+                continue;
+            }
+            let n = libc::read(fds[0], chunk.as_mut_ptr() as *mut libc::c_void, chunk.len());
+            if n <= 0 {
+                break;
+            }
+            buf.extend_from_slice(&chunk[..n as usize]);
+        }
+        libc::close(fds[0]);
+        let mut st = 0;
+        libc::waitpid(pid, &mut st, 0);
+        match serde_json::from_slice::<Value>(&buf) {
+            Ok(v) => caseout_from_json(&v),
+            Err(_) => {
+                eprintln!("INCONCLUSIVE: case child died without a result (wait status {:#x})", st);
+                std::process::exit(2);
+            }
+        }
+    }
+}
+
 /// One generator + oracle unit of a property.
 pub struct Part {
     pub name: &'static str,
@@ -215,6 +285,8 @@ pub struct Part {
     pub describe: fn(&[u8], Tier) -> Value,
     /// each case must run in a fresh process (process-global first-use registration)
     pub fresh_process: bool,
+    /// each case runs in a forked child of the (pristine) worker
+    pub forked: bool,
     /// classes that must be observed (generator health); missing => exit 2
     pub required_classes: &'static [&'static str],
 }
@@ -428,6 +500,8 @@ pub fn run_worker(prop: &Property, tier: Tier, seed: u64, index: usize, workers:
                             std::process::exit(2);
                         }
                     }
+                } else if part.forked {
+                    run_forked(|| (part.run)(&bytes, tier))
                 } else {
                     (part.run)(&bytes, tier)
                 };
